@@ -248,7 +248,9 @@ def Rodas(dae: nDAE,
                                 tevent = t
                                 ynext = ynew
 
-                            tol = 128 * np.max([np.spacing(told), np.spacing(t)])
+                            # np.spacing is negative for negative arguments: without abs the tolerance was negative for t < 0 and the
+                            # bisection ran until it hit a zero exactly (or gave up after 100 halvings with 'Lost Event')
+                            tol = 128 * np.max([np.abs(np.spacing(told)), np.abs(np.spacing(t))])
                             tol = np.min([tol, np.abs(t - told)])
                             while iterate > 0:
                                 iterate = iterate + 1
